@@ -110,7 +110,11 @@ pub fn bfs(ctx: &Ctx, cfg: &BfsCfg) -> BfsStats {
                     }
                     let image = r.snapshot();
                     let key = key128(cfg.version, &image, &[]);
-                    next.push((Node { image, model: r.model.clone(), hist }, key));
+                    // states already known from earlier levels are dropped here (the set is
+                    // only extended between levels), which keeps the level's memory small
+                    if !seen.contains(&key) {
+                        next.push((Node { image, model: r.model.clone(), hist }, key));
+                    }
                 }
                 (next, trans, burst_steps, kinds)
             })
